@@ -11,6 +11,10 @@ The model runs over a flat file of bytes.  What makes the choice of backend irre
 * `backend_indep`    : reads are determined by (size, bytes), and writes preserve agreement on
   (size, bytes): two backends whose files agree byte-for-byte stay in agreement and answer every read
   alike, whatever they are made of (pages, OS files, vectors);
+* `backend_simulation`, `backends_agree`: a backend whose single operations realise the flat file (law per
+  operation: `Backend.run_ok`, `read_ok`) realises it along every journal, so two such backends started from
+  the same bytes hold the same bytes and answer every read alike after any sequence of writes, deletes and
+  truncations;
 * `cache_transparent`: a node cache whose entries are non-blank nodes of the store (what
   `infos_to_nodes` inserts) never changes the result of a node lookup, for any content — hence any
   capacity and eviction policy.
@@ -78,6 +82,51 @@ theorem cache_fill_ok (cache : Nat → Option Node) (t : Tree) (f : File)
       rw [hn] at this
       cases this
   · exact hsub i n h
+
+/-! ## any backend that realises the flat file, operation by operation, realises it along every journal -/
+/-- the mutating operations of `RandomAccess` on one store -/
+inductive FOp
+  | write (off : Nat) (bs : Bytes)
+  | del (off len : Nat)
+  | trunc (n : Nat)
+
+/-- their effect on the flat file (an out-of-bounds `del` fails and changes nothing, as in `Disk.apply`) -/
+def FOp.run (f : File) : FOp → File
+  | .write off bs => f.write off bs
+  | .del off len => match f.del off len with
+    | some g => g
+    | none => f
+  | .trunc n => f.truncate n
+
+/-- a backend (pages in memory, an OS file with or without holes, the instrumented store) with the flat file it
+    stands for; the two laws are per operation — what the backend differential of the harness exercises -/
+structure Backend (β : Type) where
+  view : β → File
+  run : β → FOp → β
+  read : β → Nat → Nat → Option Bytes
+  run_ok : ∀ b op, view (run b op) = FOp.run (view b) op
+  read_ok : ∀ b off len, read b off len = (view b).read off len
+
+theorem backend_simulation {β : Type} (B : Backend β) (ops : List FOp) (b : β) :
+    B.view (ops.foldl B.run b) = ops.foldl FOp.run (B.view b)
+      ∧ ∀ off len, B.read (ops.foldl B.run b) off len = (ops.foldl FOp.run (B.view b)).read off len := by
+  induction ops generalizing b with
+  | nil => exact ⟨rfl, B.read_ok b⟩
+  | cons op rest ih =>
+    simp only [List.foldl_cons]
+    rw [← B.run_ok b op]
+    exact ih (B.run b op)
+
+/-- **two backends that start from the same bytes hold the same bytes and answer every read alike after any journal** -/
+theorem backends_agree {β γ : Type} (B : Backend β) (G : Backend γ) (b : β) (g : γ) (h0 : B.view b = G.view g) (ops : List FOp) :
+    B.view (ops.foldl B.run b) = G.view (ops.foldl G.run g)
+      ∧ ∀ off len, B.read (ops.foldl B.run b) off len = G.read (ops.foldl G.run g) off len := by
+  obtain ⟨b1, b2⟩ := backend_simulation B ops b
+  obtain ⟨g1, g2⟩ := backend_simulation G ops g
+  refine ⟨by rw [b1, g1, h0], fun off len => by rw [b2, g2, h0]⟩
+
+/-- non-vacuity: the flat file itself is a backend -/
+def flatBackend : Backend File := ⟨id, FOp.run, File.read, fun _ _ => rfl, fun _ _ _ => rfl⟩
 
 /-! ## the cache along a history -/
 open HC.TreeStore in
